@@ -903,3 +903,131 @@ def proto_component_check(run, props, n_recv, n_send, recv_fn='run_receiver'):
     run.model_disagree('sender', IMPORTS, 'run_sender', SEND_TYPE, cases, shard=60)
     if cases:
         run.samples.append(dict(family='sender', cfg=cases[0][2]['cfg'], first_items=cases[0][2]['script'][:6]))
+
+
+# =====================================================================================================
+#                          MQ glue (mq.py send/recv state passing, process_frames)
+# =====================================================================================================
+GLUE_IMPORTS = 'From OF Require Import Proto.MQGlue.'
+
+def glue_cases(run):
+    """real MQ.send / MQ.recv and Filter.process_frames with stub sender / receiver vs Proto/MQGlue.v"""
+    from openfilter.filter_runtime.mq import MQ, DummyMetrics
+    from openfilter.filter_runtime.filter import Filter, Frame
+    from openfilter.filter_runtime.zeromq import ZMQStateSend, ZMQStateRecv
+    rng = run.rng
+    cases = []
+    for i in range(run.n(300, 5000)):
+        sync = rng.random() < 0.8
+        mq = MQ.__new__(MQ)
+        mq.mq_id = 'm'; mq.outs_jpg = None; mq.outs_metrics = False; mq.outs_filter = False; mq.metrics_cb = None
+        mq.metrics_sender = None; mq.metrics_ = DummyMetrics(); mq.mq_log = False; mq.mq_msgid_sync = sync
+        mq.send_state = None; mq.recv_state = None; mq.metrics = {}; mq._frame_id = -1
+        flt = Filter.__new__(Filter); flt.emitter = None
+        script = {}
+        class Snd:
+            def send(self, cb, state, timeout):
+                script['state'] = state
+                script['lazy'] = None
+                if script['called']:
+                    script['cb_result'] = cb()
+                return None if script['ret'] is None else ZMQStateRecv(script['ret'])
+        class Rcv:
+            def recv(self, state, timeout):
+                script['rstate'] = state
+                return script['res']
+        mq.sender, mq.receiver = Snd(), Rcv()
+        ops_lit, exp, raw = [], [], []
+        carried = None      # the state of the last received set, until a send() succeeds
+        for _ in range(rng.randint(1, 6)):
+            if rng.random() < 0.5:
+                if rng.random() < 0.25:
+                    script['res'] = None
+                    lit = '(MRecv None)'
+                    res = None
+                else:
+                    topics = rng.sample(['main', 'a', 'b'], rng.randint(0, 2))
+                    data = [(t, rng.randint(1, 99)) for t in topics]
+                    st = (rng.randint(0, 20), rng.choice([0, 0, 1, 2]))
+                    script['res'] = ({t: [None, ('{"p":%d}' % p).encode()] for t, p in data},
+                                     ZMQStateSend(st[0], False if st[1] == 0 else True if st[1] == 1 else st[1]))
+                    lit = '(MRecv (Some (%s, (%s, %s))))' % (listl(pairl(strl(t), zl(p)) for t, p in data), zl(st[0]), zl(st[1]))
+                    res = data
+                frames = mq.recv(10)
+                arg = script['rstate']
+                got = None if frames is None else [[t, f.data['p']] for t, f in frames.items()]
+                exp.append(['r', None if arg is None else arg.msg_id, got, enc_mq(mq)])
+                if frames is not None:
+                    carried = script['res'][1]
+                ops_lit.append(lit); raw.append(['recv', res])
+            else:
+                kind = rng.choice(['none', 'frame', 'dict', 'empty', 'lazynone', 'lazyframe', 'lazydict'])
+                pay = rng.randint(1, 99)
+                d = [(t, rng.randint(1, 99)) for t in rng.sample(['main', 'x', 'y'], rng.randint(1, 2))]
+                mk = lambda p: Frame({'p': p})
+                if kind == 'none':
+                    ret_val, lit_r = None, 'PNone'
+                elif kind == 'frame':
+                    ret_val, lit_r = mk(pay), '(PFrame %d)' % pay
+                elif kind == 'dict':
+                    ret_val, lit_r = {t: mk(p) for t, p in d}, '(PDict %s)' % listl(pairl(strl(t), zl(p)) for t, p in d)
+                elif kind == 'empty':
+                    ret_val, lit_r = {}, '(PDict [])'
+                elif kind == 'lazynone':
+                    ret_val, lit_r = (lambda: None), 'PLazyNone'
+                elif kind == 'lazyframe':
+                    ret_val, lit_r = (lambda pay=pay: mk(pay)), '(PLazyFrame %d)' % pay
+                else:
+                    ret_val, lit_r = (lambda d=d: {t: mk(p) for t, p in d}), '(PLazyDict %s)' % listl(pairl(strl(t), zl(p)) for t, p in d)
+                flt.process = lambda frames, rv=ret_val: rv
+                pf = flt.process_frames({})
+                script['called'] = callable(pf) and rng.random() < 0.7
+                script['ret'] = rng.choice([None, rng.randint(0, 30), rng.randint(0, 30)])
+                script['state'] = 'nocall'
+                ok = mq.send(pf, 10)
+                st = script['state']
+                call = None if st == 'nocall' else [None if st is None else [st.msg_id, 0 if st.balanced is False else 1 if st.balanced is True else int(st.balanced)], callable(pf)]
+                exp.append(['s', call, bool(ok), enc_mq(mq)])
+                if st != 'nocall' and sync and carried is not None and st != carried:
+                    run.violation('id-not-carried sent-under=%r received-under=%r' % (None if st is None else st.msg_id, carried.msg_id),
+                                  'the result of the set received under id %d was handed to the sender under %r' % (carried.msg_id, st), dict(sync=sync, ops=raw))
+                if st != 'nocall' and ok:
+                    carried = None
+                ops_lit.append('(MSend %s %s %s)' % (lit_r, booll(script['called']), optl(script['ret'], zl)))
+                raw.append(['send', kind, script['called'], script['ret']])
+                # oracle: the result contract
+                if kind == 'none' and st != 'nocall':
+                    run.violation('contract:none-sent', 'process() returned None but the sender was called', dict(ops=raw))
+                if kind in ('lazynone', 'lazyframe', 'lazydict') and not script['called'] and 'cb_result' in script and False:
+                    pass
+        run.seen(('glue', sync, tuple(ops_lit)))
+        run.count('glue:ops', len(ops_lit))
+        cases.append((pairl(booll(sync), listl(ops_lit)), exp, dict(sync=sync, ops=raw)))
+    run.model_disagree('mq_glue', GLUE_IMPORTS, 'run_mq', 'bool * list mqop', cases, shard=400)
+    # process_frames alone, all shapes
+    from openfilter.filter_runtime.filter import Filter, Frame
+    pcases = []
+    flt = Filter.__new__(Filter); flt.emitter = None
+    for lit, rv, expv in [('PNone', None, None), ('(PFrame 7)', Frame({'p': 7}), [False, [['main', 7]]]),
+                          ('(PDict [])', {}, [False, []]), ('(PDict [([120], 3)])', {'x': Frame({'p': 3})}, [False, [['x', 3]]]),
+                          ('PLazyNone', (lambda: None), [True, None]), ('(PLazyFrame 4)', (lambda: Frame({'p': 4})), [True, [['main', 4]]]),
+                          ('(PLazyDict [([121], 5)])', (lambda: {'y': Frame({'p': 5})}), [True, [['y', 5]]])]:
+        flt.process = lambda frames, rv=rv: rv
+        pf = flt.process_frames({})
+        if pf is None:
+            got = None
+        elif callable(pf):
+            r = pf()
+            got = [True, None if r is None else [[t, f.data['p']] for t, f in r.items()]]
+        else:
+            got = [False, [[t, f.data['p']] for t, f in pf.items()]]
+        if got != expv:
+            run.violation('contract:process_frames %s' % lit, 'process_frames(%s) gave %r, contract says %r' % (lit, got, expv), dict(lit=lit))
+        pcases.append((lit, got, dict(lit=lit)))
+    run.model_disagree('process_frames', GLUE_IMPORTS, 'run_process_frames', 'presult', pcases)
+
+def enc_mq(mq):
+    s = mq.send_state
+    return [None if s is None else [s.msg_id, 0 if s.balanced is False else 1 if s.balanced is True else int(s.balanced)],
+            None if mq.recv_state is None else mq.recv_state.msg_id]
+
